@@ -415,6 +415,110 @@ def _engine_forwarding(chk):
             "gathered", "K2 wiring", ["hiten.algorithms.poincare.synodic.engine:_SynodicEngine.solve"], "B4 exact evaluation", th)
 
 
+_REPLAY_DIRECTION_HISTORY = """
+import warnings, logging
+warnings.filterwarnings("ignore"); logging.disable(logging.CRITICAL)
+from hiten import System
+from hiten.system.maps.synodic import SynodicMap
+def orbit():
+    o = System.from_bodies("earth", "moon").get_libration_point(1).create_orbit("halo", amplitude_z=0.2, zenith="southern")
+    o.correct(); o.propagate(steps=400)
+    return o
+kw = dict(section_axis="y", section_offset=0.0, plane_coords=("x", "z"))
+m = SynodicMap(orbit())
+n1 = len(m.compute(direction=1, **kw).points)
+n_after = len(m.compute(direction=None, **kw).points)
+n_fresh = len(SynodicMap(orbit()).compute(direction=None, **kw).points)
+print("hits: direction=1 ->", n1, "; then direction=None on the same map ->", n_after, "; direction=None on a fresh map ->", n_fresh)
+print("CONFIRMED" if n_after != n_fresh else "NOT-CONFIRMED")
+"""
+
+
+def _service_request_history(chk):
+    """_SynodicMapDynamicsService.compute: for every history of requests the detection runs with the plane and the direction
+    of THIS request ('for any affine section ... compatible with the requested direction', None = both included)"""
+    import itertools
+    import hiten.algorithms.types.services.base as sb
+    import hiten.algorithms.types.services.maps as mp
+    from hiten.algorithms.poincare.synodic.base import SynodicMapPipeline
+    from pyvc.core import real_self
+
+    class Engine:
+        _interface = None
+        backend = "BACKEND"
+        log = []
+
+        def set_interface(self, interface):
+            self._interface = interface
+
+        def solve(self, problem):
+            cfg = problem
+            req = (cfg.section_axis, cfg.section_offset, tuple(cfg.plane_coords), cfg.direction)
+            Engine.log.append(req)
+            code = float({1: 1, -1: 2, None: 3}[cfg.direction]) + 10.0 * float(cfg.section_offset)
+            return _Obj(points=_np.array([[code, 0.0]]), states=_np.zeros((1, 6)), times=_np.array([0.0]),
+                        trajectory_indices=_np.array([0]), labels=tuple(cfg.plane_coords))
+
+    class Interface:
+        def bind_backend(self, backend):
+            pass
+
+        def create_problem(self, *, domain_obj, config, options):
+            return config
+
+    class Pipe(SynodicMapPipeline):
+        @classmethod
+        def with_default_engine(cls, *, config, interface=None, backend=None):
+            return SynodicMapPipeline(config, Engine(), Interface(), None)
+
+    def make():
+        svc = real_self(mp._SynodicMapDynamicsService, _trajectories=[], _source="SRC",
+                        _map_options=_Obj(to_dict=lambda: {"n_workers": 1}))
+        mp._MapDynamicsServiceBase.__init__(svc, _Obj(_trajectories=[], _source="SRC"))
+        return svc
+    requests = [dict(section_axis=a, section_offset=o, plane_coords=("x", "z"), direction=d)
+                for a in ("y",) for o in (0.0, 0.25) for d in (1, -1, None)]
+
+    def th():
+        saved = mp.SynodicMapPipeline
+        mp.SynodicMapPipeline = Pipe
+        n = 0
+        try:
+            for L in (1, 2, 3):
+                for hist in itertools.product(requests, repeat=L):
+                    svc = make()
+                    for r in hist[:-1]:
+                        mp._SynodicMapDynamicsService.compute(svc, **r)
+                    Engine.log.clear()
+                    got = mp._SynodicMapDynamicsService.compute(svc, **hist[-1])
+                    ran = list(Engine.log)
+                    twin = make()
+                    want = mp._SynodicMapDynamicsService.compute(twin, **hist[-1])
+                    n += 1
+                    last = hist[-1]
+                    want_req = (last["section_axis"], last["section_offset"], last["plane_coords"], last["direction"])
+                    for req in ran:
+                        if req != want_req:
+                            raise Refuted(f"SynodicMap.compute: the detection runs with (axis, offset, coords, direction) = {req} "
+                                          f"for the request {want_req}",
+                                          f"history {[(r['section_offset'], r['direction']) for r in hist]} (offset, direction)",
+                                          replay=_REPLAY_DIRECTION_HISTORY, inputs={"history": [dict(r) for r in hist]})
+                    if _np.asarray(got.points).tolist() != _np.asarray(want.points).tolist():
+                        raise Refuted("SynodicMap.compute: after a history of requests the returned hits differ from those of a "
+                                      "fresh map", f"history {[(r['section_offset'], r['direction']) for r in hist]}: "
+                                      f"{_np.asarray(got.points).tolist()} vs fresh {_np.asarray(want.points).tolist()}",
+                                      replay=_REPLAY_DIRECTION_HISTORY, inputs={"history": [dict(r) for r in hist]})
+        finally:
+            mp.SynodicMapPipeline = saved
+        if n < 200:
+            raise Refuted("vacuous", f"only {n} histories")
+    chk.obl("_SynodicMapDynamicsService.compute: over all request histories of length <= 3 (direction +1 | -1 | None x two "
+            "offsets) the detection runs with the plane and direction of the current request and returns what a fresh map returns",
+            "K2 postconditions (closed histories, bounded-exhaustive)",
+            ["hiten.algorithms.types.services.maps:_SynodicMapDynamicsService.compute",
+             "hiten.algorithms.types.core:_HitenBasePipeline.update_config"], "B4 exact evaluation", th)
+
+
 def run(chk):
     loader.install()
     chk.under_contract(SB + ":_compute_event_values", SB + ":_on_surface_indices", SB + ":_crossing_indices_and_alpha",
@@ -430,3 +534,4 @@ def run(chk):
     _assembled(chk)
     _cubic(chk)
     _engine_forwarding(chk)
+    _service_request_history(chk)
